@@ -238,6 +238,71 @@ fn make_old(sc: &Scenario, pl: &Plan, dest: &Path) -> Result<(), String> {
     Ok(())
 }
 
+/// Several builds aimed at one destination at the same time (threads released by a barrier). Whatever each of them reports,
+/// the destination afterwards is one of the complete archives or the previous content. One JSON line per round.
+fn concurrent_builds(seed: u64, rounds: u64, dir: &Path) {
+    let names = ["build-v1-present-small", "build-v2-present-big", "build-v4-present-small", "build-v3-present-big", "build-v1-present-big", "build-v2-present-small"];
+    for r in 0..rounds {
+        let nthreads = 2 + (r % 2) as usize;
+        let scs: Vec<Scenario> = (0..nthreads).map(|t| parse_scenario(names[(r as usize + 2 * t + t * t) % names.len()]).unwrap()).collect();
+        // (same size class + same version would mean the same content: keep the plans pairwise different)
+        let plans: Vec<Plan> = scs.iter().enumerate().map(|(t, sc)| plan(sc, seed.wrapping_add(1000 * r + 77 * t as u64), "full")).collect();
+        let dest = dir.join(format!("conc-{r}.mpq"));
+        let _ = std::fs::remove_file(&dest);
+        let with_old = r % 3 != 2;
+        let mut old_bytes = None;
+        if with_old {
+            if let Err(e) = make_old(&scs[0], &plans[0], &dest) {
+                println!("{}", json!({"round": r, "setup": e}));
+                continue;
+            }
+            old_bytes = std::fs::read(&dest).ok();
+        }
+        let barrier = std::sync::Barrier::new(nthreads);
+        let statuses: Vec<String> = std::thread::scope(|sc| {
+            let hs: Vec<_> = plans
+                .iter()
+                .map(|pl| {
+                    let (barrier, dest) = (&barrier, &dest);
+                    sc.spawn(move || {
+                        let b = add_files(pl.cfg.builder(), &pl.cfg, &pl.expect);
+                        barrier.wait();
+                        match trap(|| b.build(dest)) {
+                            Ok(Ok(())) => "ok".to_string(),
+                            Ok(Err(e)) => format!("err:{}", one_line(&e.to_string())),
+                            Err(p) => format!("panic:{}", one_line(&p.msg)),
+                        }
+                    })
+                })
+                .collect();
+            hs.into_iter().map(|h| h.join().unwrap_or_else(|_| "thread-died".into())).collect()
+        });
+        let now = std::fs::read(&dest).ok();
+        let mut state = "other".to_string();
+        let mut complaints = Vec::new();
+        if now.is_none() {
+            state = "absent".into();
+        } else if now == old_bytes {
+            state = "old".into();
+        } else {
+            for (t, pl) in plans.iter().enumerate() {
+                let bad = verify(&dest, &pl.expect);
+                if bad.is_empty() {
+                    state = format!("complete-{t}");
+                    break;
+                }
+                complaints.push(one_line(&bad.join("; ")));
+            }
+        }
+        let leftovers: Vec<String> = std::fs::read_dir(dir).map(|d| d.filter_map(|e| e.ok()).map(|e| e.file_name().to_string_lossy().into_owned()).filter(|n| n.contains(&format!("conc-{r}.")) && *n != format!("conc-{r}.mpq")).collect()).unwrap_or_default();
+        println!("{}", json!({"round": r, "threads": nthreads, "scenarios": scs.iter().map(|s| s.name.clone()).collect::<Vec<_>>(), "had_old": with_old, "statuses": statuses, "dest": state, "complaints": complaints, "leftovers": leftovers}));
+        let _ = std::fs::remove_file(&dest);
+        for l in leftovers {
+            let _ = std::fs::remove_file(dir.join(l));
+        }
+    }
+}
+
 fn one_line(s: &str) -> String {
     s.replace(['\n', '\r'], " ").chars().take(300).collect()
 }
@@ -262,6 +327,11 @@ fn main() {
     vh_common::install_panic_trap();
     vh_common::init_log();
     let seed: u64 = opt.get("seed").and_then(|s| s.parse().ok()).or_else(|| std::env::var("VERIF_SEED").ok().and_then(|s| s.parse().ok())).unwrap_or(1);
+    if let Some(rounds) = opt.get("concurrent").and_then(|s| s.parse::<u64>().ok()) {
+        let dir = PathBuf::from(opt.get("dest").cloned().unwrap_or_else(|| ".".into()));
+        concurrent_builds(seed, rounds, &dir);
+        std::process::exit(EXIT_OK);
+    }
     let Some(sc) = opt.get("scenario").and_then(|s| parse_scenario(s)) else {
         eprintln!("usage: c12 --scenario <build-v{{1..4}}-{{absent|present}}-{{small|big}} | compact-v{{1|4}}> (--dest <path> [--make-old] | --verify <archive> | --describe)");
         std::process::exit(EXIT_USAGE);
